@@ -194,7 +194,7 @@ func (dec *tomlDecoder) decodeNode(tomlNode *toml.Node) (*CandidateNode, error) 
 
 }
 
-func (dec *tomlDecoder) Decode() (*CandidateNode, error) {
+func (dec *tomlDecoder) Decode() (result *CandidateNode, resultError error) {
 	if dec.finished {
 		return nil, io.EOF
 	}
@@ -208,6 +208,10 @@ func (dec *tomlDecoder) Decode() (*CandidateNode, error) {
 			if !ok {
 				deferredError = fmt.Errorf("pkg: %v", r)
 			}
+			// hand the recovered error to the caller: without named results
+			// the function returned (nil, nil) after a panic
+			result = nil
+			resultError = deferredError
 		}
 	}()
 
